@@ -70,8 +70,8 @@ template <int S> struct Runner {
     }
   }
 
-  void run_case(int N, const std::vector<double> &T, bool kkt) {
-    Prob p; p.N = N; p.T = T; p.t0 = 0.0;
+  void run_case(int N, const std::vector<double> &T, bool kkt, double t0) {
+    Prob p; p.N = N; p.T = T; p.t0 = t0;
     const int nb = nbasis(S, N), ncol = nb + D;
     // reference: one elimination, all right-hand sides
     Prob g = p; set_generic_data(g, (uint64_t)c.args.seed * 1000 + N);
@@ -137,7 +137,7 @@ template <int S> static void explore(Ctx &c, long &id) {
         { long ww = w; for (int i = 0; i < N; ++i) { int l = ww % base; ww /= base; T[i] = (base == 3 ? L[l] : (l == 0 ? L[0] : L[2])) * sigmas[si]; } }
         Runner<S> r(c, unit);
         bool kkt = (N <= (th ? 4 : 3)) && alpha == 0 && D <= 2 && si < nreg;
-        r.run_case(N, T, kkt);
+        r.run_case(N, T, kkt, (w % 3 == 0) ? 0.0 : (w % 3 == 1) ? -2.5 : 1024.125);
         ++c.st.evaluations;
         std::string key = fmt("S%d/a%d/N%d/w%ld/s%zu", S, alpha, N, w, si);
         if (!c.st.seen(key) && N >= 2) ++c.st.nontrivial;
